@@ -146,6 +146,7 @@ func TestC05(t *testing.T) {
 	cfg.Crashes = 2
 	cfg.SmallBatches = true
 	cfg.DryRunPct = 10
+	cfg.MetaFirstPct = 25
 	runProp(t, c, func(rt *rapid.T) {
 		plan := enginesim.GenPlan(rt, cfg)
 		r := runEngine(t, rt, c, plan)
